@@ -32,6 +32,19 @@ THEOREMS = [
     dict(name="Snow.C02.cool2D_balance_partial", strength="partial",
          clause="2D cooling stage, per column: nodal changes = shelf + top ghost increments + explicit radial remainder "
                 "(remainder not bounded; no r-weighted conservation law; solidification stage not covered)"),
+    dict(name="Snow.C02.cool2D_conservation_partial", strength="partial",
+         clause="repaired 2D cooling step: r-weighted (volume) sum of the nodal changes = r-weighted shelf/top ghost "
+                "increments + per row the wall term, a centre-line term and an explicit remainder from dr = R/Nr != node "
+                "spacing R/(Nr-1); no exact conservation law, remainder not bounded"),
+    dict(name="Snow.C02.radial_row_sum", strength="full",
+         clause="r-weighted radial operator of one row = flux-form boundary terms minus sum (r_{k+2}-r_{k+1}-dr)(T_{k+2}-T_{k+1})"),
+    dict(name="Snow.C02.solid1D_balance_partial", strength="partial",
+         clause="1D solidification stage, any Nz >= 2: rho*dz*sum cp_j*BETA_j*(T'_j-T_j) = dt*(q_shelf+q_e) + (dt/dz)*R "
+                "with the explicit non-conservative remainder R (derivative-product terms minus the flux-form part); "
+                "R is not bounded"),
+    dict(name="Snow.C02.solid1D_is_model", strength="full",
+         clause="the stencil of solid1D_balance_partial is the temperature update of the executable 1D model "
+                "(Snow.solidStep1D), node by node"),
     dict(name="Snow.C02.nonvacuous", strength="nonvacuity",
          clause="hypotheses of nucleation_adiabatic hold for the default solution at -10 C"),
 ]
